@@ -329,43 +329,75 @@ Section Cross.
   Qed.
 End Cross.
 
-(* ---- the defect: arguments beyond the callee's parameters are never resolved ---- *)
+(* ---- the defect: call arguments that are not matched with a parameter ---- *)
 
 Definition genv_empty : genv := GEnv [] [] [] [] [].
+(* instruction 25 of language 0 has one real parameter and two padding parameters *)
+Definition genv_padded : genv := GEnv [] [] [(0, 25, [(None, false); (None, true); (None, true)])] [] [].
 
 (* void a() { a(b); }   -- b is not declared anywhere *)
 Definition excess_example : prog :=
   PFile [IFunc QNone (Occ 0 0) []
            (BCons (SUses [Use UFun (Occ 0 1) []; Use UVar (Occ 1 2) [Guard (CNamed (Occ 0 1)) 0%nat]]) BNil)].
+(* void a() { ins_25(1, b); }   -- b is not declared anywhere *)
+Definition padded_example : prog :=
+  PFile [IFunc QNone (Occ 0 0) [] (BCons (SUses [Use UVar (Occ 1 1) [Guard (CRaw 25) 1%nat]]) BNil)].
 
 Lemma excess_example_events :
   resolve genv_empty 0 5 excess_example
-  = [EvRes 0 (ROk (DFunc 0 0)); EvRes 1 (ROk (DFunc 0 0)); EvRes 2 (if gen_visit_excess_args then RUnknown else RSkipped)].
+  = [EvRes 0 (ROk (DFunc 0 0)); EvRes 1 (ROk (DFunc 0 0));
+     EvRes 2 (match gen_excess_mode with ExNone => RSkipped | _ => RUnknown end)].
 Proof. vm_compute. reflexivity. Qed.
 
-(* As long as the source zips arguments with parameters only (generated flag false), "every use of a
-   name refers to the innermost visible declaration" fails as stated: an accepted program can contain
-   a use that refers to nothing *)
-Theorem every_use_bound_refuted : gen_visit_excess_args = false ->
+Lemma padded_example_events :
+  resolve genv_padded 0 5 padded_example
+  = [EvRes 0 (ROk (DFunc 0 0));
+     EvRes 1 (if gen_zip_skips_padding
+              then match gen_excess_mode with ExAfterMatched => RUnknown | _ => RSkipped end
+              else RUnknown)].
+Proof. vm_compute. reflexivity. Qed.
+
+(* the source visits every argument of every call *)
+Definition all_args_visited : Prop :=
+  gen_excess_mode = ExAfterMatched \/ (gen_excess_mode = ExAfterParams /\ gen_zip_skips_padding = false).
+(* ... or leaves some out: no extra loop, or the loop starts after as many arguments as there are
+   parameters although padding parameters were not matched with any argument *)
+Definition some_args_skipped : Prop :=
+  gen_excess_mode = ExNone \/ (gen_excess_mode = ExAfterParams /\ gen_zip_skips_padding = true).
+
+(* When some arguments are left out, "every use of a name refers to the innermost visible
+   declaration" fails as stated: an accepted program can contain a use that refers to nothing *)
+Theorem every_use_bound_refuted : some_args_skipped ->
   exists g fl sl p evs id, resolve_outcome g fl sl p = Ok evs /\ In (EvRes id RSkipped) evs
                            /\ forall r, binds g fl sl p id r -> r = RSkipped.
 Proof.
-  intro F.
-  exists genv_empty, 0, 5, excess_example, [EvRes 0 (ROk (DFunc 0 0)); EvRes 1 (ROk (DFunc 0 0)); EvRes 2 RSkipped], 2.
-  pose proof excess_example_events as E. rewrite F in E.
-  split; [unfold resolve_outcome; rewrite E; reflexivity|]. split; [right; right; now left|].
-  intros r H. unfold binds in H. rewrite <- resolve_sound_complete, E in H. cbn in H.
-  destruct H as [H|[H|[H|[]]]]; inversion H; reflexivity.
+  intros [F|[F Z]].
+  - exists genv_empty, 0, 5, excess_example, [EvRes 0 (ROk (DFunc 0 0)); EvRes 1 (ROk (DFunc 0 0)); EvRes 2 RSkipped], 2.
+    pose proof excess_example_events as E. rewrite F in E.
+    split; [unfold resolve_outcome; rewrite E; reflexivity|]. split; [right; right; now left|].
+    intros r H. unfold binds in H. rewrite <- resolve_sound_complete, E in H. cbn in H.
+    destruct H as [H|[H|[H|[]]]]; inversion H; reflexivity.
+  - exists genv_padded, 0, 5, padded_example, [EvRes 0 (ROk (DFunc 0 0)); EvRes 1 RSkipped], 1.
+    pose proof padded_example_events as E. rewrite F, Z in E.
+    split; [unfold resolve_outcome; rewrite E; reflexivity|]. split; [right; now left|].
+    intros r H. unfold binds in H. rewrite <- resolve_sound_complete, E in H. cbn in H.
+    destruct H as [H|[H|[]]]; inversion H; reflexivity.
 Qed.
 
-(* With the remaining arguments visited (flag true) no use is ever skipped *)
-Lemma visited_all g lf al gs : gen_visit_excess_args = true -> visited g lf al gs = true.
+(* When every argument is visited no use is ever skipped *)
+Lemma arg_visited_all s pos : all_args_visited -> arg_visited s pos = true.
 Proof.
-  intro T. induction gs as [|gd outer IH]; cbn [visited]; [reflexivity|]. rewrite IH, T. cbn.
-  destruct (callee_sig g lf al (g_callee gd)); reflexivity.
+  unfold arg_visited, matched. intros [M|[M Z]]; rewrite M; [apply orb_true_r|]. rewrite Z.
+  destruct (Nat.ltb pos (length s)) eqn:E; [reflexivity|]. cbn. apply Nat.leb_le. apply Nat.ltb_ge in E. exact E.
 Qed.
 
-Theorem uses_never_skipped : gen_visit_excess_args = true ->
+Lemma visited_all g lf al gs : all_args_visited -> visited g lf al gs = true.
+Proof.
+  intro T. induction gs as [|gd outer IH]; cbn [visited]; [reflexivity|]. rewrite IH. cbn.
+  destruct (callee_sig g lf al (g_callee gd)); [now apply arg_visited_all | reflexivity].
+Qed.
+
+Theorem uses_never_skipped : all_args_visited ->
   forall g lv lf al u, resolve_use g lv lf al u <> RSkipped.
 Proof.
   intros T g lv lf al u. unfold resolve_use. rewrite (visited_all g lf al _ T).
@@ -377,6 +409,12 @@ Proof.
     pose proof (global_fun_in_kind g (rev gen_initial_ribs) al (oname (u_occ u))) as K.
     unfold global_fun. intro E. rewrite E in K. exact K.
   - pose proof (enum_qualified_kind g e (oname (u_occ u))) as K. intro E. rewrite E in K. exact K.
+Qed.
+
+Lemma args_visited_or_skipped : all_args_visited \/ some_args_skipped.
+Proof.
+  unfold all_args_visited, some_args_skipped.
+  destruct gen_excess_mode; destruct gen_zip_skips_padding; auto.
 Qed.
 
 (* In either case: every occurrence that is visited at all is bound as the rules say *)
